@@ -394,6 +394,7 @@ func malFile(path string) {
 	self, _ := os.Executable()
 	memLimitKB := 1 << 20 // 1 GiB of address space beyond what the runtime reserves is plenty for every honest decode
 	all := cases
+	crashes := 0
 	const chunk = 4000
 	base := 0
 	for base < len(all) {
@@ -424,7 +425,7 @@ func malFile(path string) {
 			timedOut := false
 			select {
 			case <-done:
-			case <-time.After(15 * time.Second):
+			case <-time.After(8 * time.Second):
 				timedOut = true
 				cmd.Process.Kill()
 				<-done
@@ -459,6 +460,11 @@ func malFile(path string) {
 				}
 				fmt.Fprintf(w, "mal %s %s %s\t%s\n", c[0], c[1], c[2], out)
 				next += started + 1
+				if crashes++; crashes >= 20 {
+					// enough failing inputs for a verdict: do not spend the whole budget on a broken decoder
+					fmt.Fprintf(os.Stderr, "stopping after %d crashed cases\n", crashes)
+					return
+				}
 				continue
 			}
 			next += finished + 1
